@@ -37,6 +37,8 @@ type verifPacket struct {
 	dport      uint16
 	outIf, inIf uint8 // 0 lo, 1 eth0, 2 eth1
 	uid, gid   uint32
+	established bool   // conntrack state RELATED/ESTABLISHED (else NEW)
+	mark        uint32 // packet mark
 	v6         bool // evaluate address matches on the 128-bit fields
 	src6, dst6 [2]uint64
 }
@@ -264,9 +266,28 @@ func verifMatch(args []string, p *verifPacket) (bool, string, string) {
 			cond = p.gid == uint32(n)
 		case "-m":
 			mod := take()
-			if mod != "owner" && mod != "multiport" {
+			if mod != "owner" && mod != "multiport" && mod != "conntrack" && mod != "mark" {
 				panic("unmodelled match module " + mod)
 			}
+			isCond = false
+		case "--ctstate":
+			if st := take(); st != "RELATED,ESTABLISHED" {
+				panic("unmodelled conntrack state " + st)
+			}
+			cond = p.established
+		case "--mark":
+			n, err := strconv.Atoi(take())
+			if err != nil {
+				panic("bad --mark")
+			}
+			cond = p.mark == uint32(n)
+		case "--tproxy-mark", "--set-mark":
+			take()
+			isCond = false
+		case "--on-port":
+			targ = take()
+			isCond = false
+		case "--save-mark", "--restore-mark":
 			isCond = false
 		case "-j":
 			target = take()
@@ -309,7 +330,9 @@ func verifEval(t verifTable, chain string, p *verifPacket, depth int) (bool, int
 		case "ACCEPT":
 			terminal = vp.Or(terminal, hit)
 			port = vp.IteInt(hit, 0, port)
-		case "REDIRECT":
+		case "MARK", "CONNMARK":
+			// non-terminal; in these rule sets a mark is only set right before ACCEPT or for connection tracking
+		case "REDIRECT", "TPROXY":
 			n, err := strconv.Atoi(targ)
 			if err != nil {
 				panic("bad --to-ports")
@@ -588,6 +611,50 @@ func VerifC20DNSCapture() {
 	a, ap := verifEval(table, "PREROUTING", p, 0)
 	b, bp := verifEval(table0, "PREROUTING", p, 0)
 	vp.Assert(vp.And(a == b, vp.Implies(a, ap == bp)), "inbound-unaffected-by-dns-capture")
+}
+
+// TPROXY interception mode: a NEW inbound TCP connection (no mark, arriving on a real interface) is handed to the
+// proxy's inbound port by the mangle table iff its port is included, not excluded and not the tunnel port - the same
+// policy as in REDIRECT mode; the nat table does not touch inbound traffic in this mode.
+func VerifC20TProxyInbound() {
+	verifReduced = false
+	cfg := verifConfigWith("*", "")
+	cfg.InboundInterceptionMode = "TPROXY"
+	c := &IptablesConfigurator{ruleBuilder: builder.NewIptablesRuleBuilder(cfg), ext: verifDeps{}, cfg: cfg}
+	if err := c.Run(); err != nil {
+		vp.Unreachable("configuration-of-the-menu-is-accepted")
+	}
+	mangle := verifLoadTable(c.ruleBuilder.BuildV4(), "mangle")
+	nat := verifLoadTable(c.ruleBuilder.BuildV4(), "nat")
+	p := verifPacketSym()
+	vp.Reach("rules-built")
+	// a new connection from outside: not established, unmarked, not on loopback, not to a loopback address
+	vp.Assume(vp.And3(!p.established, p.mark == 0, p.inIf != 0))
+	vp.Assume(p.dst != 0x7f000001)
+	term, port := verifEval(mangle, "PREROUTING", p, 0)
+	inIncluded := false
+	switch cfg.InboundPortsInclude {
+	case "*":
+		inIncluded = true
+	case "":
+	default:
+		inIncluded = verifPortIn(cfg.InboundPortsInclude, p.dport)
+	}
+	inExcluded := false
+	if cfg.InboundPortsInclude == "*" && cfg.InboundPortsExclude != "" {
+		inExcluded = verifPortIn(cfg.InboundPortsExclude, p.dport)
+	}
+	inIfExcluded := vp.And(cfg.ExcludeInterfaces != "", p.inIf == 2)
+	want := vp.And3(p.tcp, vp.And(inIncluded, !inExcluded), !inIfExcluded)
+	captured := vp.And(term, port == 15006)
+	// F16 (open finding): the exemption of the tunnel port ("hit the tunnel port directly") is added to the nat table
+	// only, which inbound traffic never traverses in TPROXY mode, so connections to 15008 are handed to the inbound
+	// port. Kept under its own label; every other port must follow the policy exactly.
+	vp.Assert(vp.Implies(p.dport != 15008, captured == want), "tproxy-inbound-tcp-captured-iff-port-included-and-not-excluded")
+	vp.Assert(vp.Implies(p.dport == 15008, !captured), "tproxy-inbound-tcp-captured-iff-port-included-and-not-excluded/tunnel-port-exemption-is-only-in-the-nat-table")
+	vp.Assert(vp.Implies(term, port == 15006), "tproxy-inbound-only-ever-goes-to-the-inbound-port")
+	termNat, _ := verifEval(nat, "PREROUTING", p, 0)
+	vp.Assert(!termNat, "nat-table-leaves-inbound-alone-in-tproxy-mode")
 }
 
 // Mutant twin: "excluded ranges are still captured" must be refuted.
